@@ -13,7 +13,7 @@ DOCS_QUICK = ['zeep-lib/test-data/tempconverter.wsdl', 'zeep-lib/test-data/singl
 EXTRA_DOC = '''<wsdl:definitions xmlns:wsdl="http://schemas.xmlsoap.org/wsdl/" xmlns:soap="http://schemas.xmlsoap.org/wsdl/soap/" xmlns:xs="http://www.w3.org/2001/XMLSchema" xmlns:tns="urn:verif:a" targetNamespace="urn:verif:a">
 <wsdl:types><xs:schema targetNamespace="urn:verif:a" elementFormDefault="qualified">
 <xs:simpleType name="Code"><xs:annotation><xs:documentation>first line
-second line</xs:documentation></xs:annotation><xs:restriction base="xs:string"><xs:maxLength value="5"/><xs:enumeration value="a"/><xs:enumeration value="b"/></xs:restriction></xs:simpleType>
+second line</xs:documentation></xs:annotation><xs:restriction base="xs:string"><xs:maxLength value="5"/><xs:enumeration value="a"/><xs:enumeration value="Zürich"/><xs:enumeration value="東京"/></xs:restriction></xs:simpleType>
 <xs:simpleType name="ShortCode"><xs:restriction base="tns:Code"/></xs:simpleType>
 <xs:simpleType name="Qty"><xs:restriction base="xs:int"><xs:minInclusive value="1"/><xs:maxExclusive value="10"/></xs:restriction></xs:simpleType>
 <xs:complexType name="Line"><xs:sequence><xs:element name="code" type="tns:Code"/><xs:element name="qty" type="tns:Qty" minOccurs="0" maxOccurs="unbounded"/></xs:sequence><xs:attribute name="id" type="xs:string" use="required"/></xs:complexType>
@@ -47,6 +47,16 @@ mod verif_replay_w {
         }
         fn flush(&mut self) -> std::io::Result<()> { Ok(()) }
     }
+    struct Prefix { out: Vec<u8>, state: u64 }
+    impl std::io::Write for Prefix {
+        fn write(&mut self, buf: &[u8]) -> std::io::Result<usize> {
+            if buf.is_empty() { return Ok(0); }
+            self.state = self.state.wrapping_mul(6364136223846793005).wrapping_add(1442695040888963407);
+            let n = 1 + (self.state >> 33) as usize %% buf.len();
+            self.out.extend_from_slice(&buf[..n]); Ok(n)
+        }
+        fn flush(&mut self) -> std::io::Result<()> { Ok(()) }
+    }
     struct OneByte(Vec<u8>);
     impl std::io::Write for OneByte {
         fn write(&mut self, buf: &[u8]) -> std::io::Result<usize> { if buf.is_empty() { return Ok(0); } self.0.push(buf[0]); Ok(1) }
@@ -76,8 +86,19 @@ mod verif_replay_w {
                 if bad > 5 { break; }
             }
             }
+            // short writes: one byte at a time, and pseudo-random prefixes (both may split a multi-byte character)
             let mut ob = OneByte(Vec::new());
-            match doc.write_xml(&mut ob) { Ok(()) => if ob.0 != full { println!("W|{path}|short|DIFFERENT-OUTPUT"); }, Err(_) => println!("W|{path}|short|ERROR") }
+            match std::panic::catch_unwind(std::panic::AssertUnwindSafe(|| doc.write_xml(&mut ob))) {
+                Err(_) => println!("W|{path}|short|PANIC"),
+                Ok(Ok(())) => if ob.0 != full { println!("W|{path}|short|DIFFERENT-OUTPUT"); },
+                Ok(Err(_)) => println!("W|{path}|short|ERROR") }
+            for seed in 1u64..6 {
+                let mut pw = Prefix { out: Vec::new(), state: seed };
+                match std::panic::catch_unwind(std::panic::AssertUnwindSafe(|| doc.write_xml(&mut pw))) {
+                    Err(_) => { println!("W|{path}|short|PANIC"); break; }
+                    Ok(Ok(())) => if pw.out != full { println!("W|{path}|short|DIFFERENT-OUTPUT"); break; },
+                    Ok(Err(_)) => { println!("W|{path}|short|ERROR"); break; } }
+            }
             println!("W|{path}|{n}|done");
         }
     }
